@@ -58,6 +58,19 @@ def strsOf : List J → List String
   | .str s :: r => s :: strsOf r
   | _ :: r => strsOf r
 
+/-- the array branch of `check_digests`, for one item, before descending into it -/
+def phNote (x : J) (seen : List String) : Outcome (List String) :=
+  match x with
+  | .obj ms =>
+    match aget "..." ms with
+    | some ph =>
+      if ms.length ≠ 1 then .err .rejected     -- "... key must be only key in object"
+      else match ph with
+        | .str g => note seen g
+        | _ => .ok seen
+    | none => .ok seen
+  | _ => .ok seen
+
 def checkDigests : J → List String → Outcome (List String)
   | .obj ms, seen =>
     match aget "_sd" ms with
@@ -81,18 +94,7 @@ where
   checkL : List J → List String → Outcome (List String)
     | [], seen => .ok seen
     | x :: r, seen =>
-      let here : Outcome (List String) :=
-        match x with
-        | .obj ms =>
-          match aget "..." ms with
-          | some ph =>
-            if ms.length ≠ 1 then .err .rejected     -- "... key must be only key in object"
-            else match ph with
-              | .str g => note seen g
-              | _ => .ok seen
-          | none => .ok seen
-        | _ => .ok seen
-      match here with
+      match phNote x seen with
       | .ok seen1 =>
         match checkDigests x seen1 with
         | .ok seen2 => checkL r seen2
@@ -126,6 +128,24 @@ def ownSd (d : Disc) (ms : List (String × J)) : Outcome (Option String) :=
 
 abbrev Walk (α : Type) := Outcome (α × Bool × List String)
 
+/-- the array branch of `restore_disclosure`, for one item, before descending into it:
+`ok true` = the item is the placeholder of this disclosure (and is replaced by its value) -/
+def elemHit (d : Disc) (x : J) : Outcome Bool :=
+  match x with
+  | .obj ms =>
+    match aget "..." ms with
+    | some v =>
+      if ms.length ≠ 1 then .err .rejected
+      else match v with
+        | .str g =>
+          if g = d.digest then
+            (if d.key.isSome then .err .rejected       -- 3-element disclosure at `...`
+             else .ok true)
+          else .ok false
+        | _ => .ok false
+    | none => .ok false
+  | _ => .ok false
+
 /-- Model of `restore_disclosure` (tree after the walk, `is_restored`, paths pushed).
 The Rust walk also re-enters the value it has just inserted, with the same disclosure; that
 matters only if a disclosure's value contains its own digest (hash fixed point), see DESIGN §1.2. -/
@@ -157,28 +177,21 @@ where
   restoreL (d : Disc) (p : String) (i : Nat) : List J → Walk (List J)
     | [] => .ok ([], false, [])
     | x :: r =>
-      let here : Walk J :=
-        match x with
-        | .obj ms =>
-          match aget "..." ms with
-          | some v =>
-            if ms.length ≠ 1 then .err .rejected
-            else
-              match v with
-              | .str g =>
-                if g = d.digest then
-                  (if d.key.isSome then .err .rejected       -- 3-element disclosure at `...`
-                   else .ok (d.value, true, [fmtPath p (toString i)]))
-                else restoreOne d (fmtPath p (toString i)) x
-              | _ => restoreOne d (fmtPath p (toString i)) x
-          | none => restoreOne d (fmtPath p (toString i)) x
-        | _ => restoreOne d (fmtPath p (toString i)) x
-      match here, restoreL d p (i+1) r with
-      | .panic, _ => .panic
-      | .err e, _ => .err e
-      | _, .panic => .panic
-      | _, .err e => .err e
-      | .ok (x', f1, p1), .ok (r', f2, p2) => .ok (x' :: r', f1 || f2, p1 ++ p2)
+      match elemHit d x with
+      | .panic => .panic
+      | .err e => .err e
+      | .ok true =>
+        match restoreL d p (i+1) r with
+        | .panic => .panic
+        | .err e => .err e
+        | .ok (r', _, p2) => .ok (d.value :: r', true, fmtPath p (toString i) :: p2)
+      | .ok false =>
+        match restoreOne d (fmtPath p (toString i)) x, restoreL d p (i+1) r with
+        | .panic, _ => .panic
+        | .err e, _ => .err e
+        | _, .panic => .panic
+        | _, .err e => .err e
+        | .ok (x', f1, p1), .ok (r', f2, p2) => .ok (x' :: r', f1 || f2, p1 ++ p2)
 
 /-! ## `restore_disclosures`: decode all, reject repeats, validate, place in rounds -/
 
